@@ -9,6 +9,18 @@ CHECKS = {
    text="Every public operation of circom_algebra::modular_arithmetic is compared with an independent reference (u128 for small primes, BigUint for the real primes) written from the Circom operator documentation. Small prime fields are enumerated completely (all operand pairs, all 23 operations), the three real primes are sampled at boundary values and at random, and shift counts too large to evaluate in-process run in a subprocess under RLIMIT_CPU/RLIMIT_AS so that an unbounded computation is observed as a violation. Exhaustive on small fields, sampling on the real ones: 'held on everything explored', not a proof.",
    note="Trusts the reference semantics in harness/src/field.rs (cross-checked u128 vs BigUint at start-up) and num-bigint-dig for the big reference; operands are canonical field elements; an error result is accepted only for zero divisors and for shift counts above the bit size.",
    design="DESIGN.md §3 C16"),
+ "C15": dict(
+   level="exploration",
+   technique="differential testing of DominatorTree::new against a path-definition reference: exhaustive enumeration of all rooted digraphs with <= 5 nodes plus tape-generated random graphs up to 40 nodes (proptest, shrinking)",
+   text="The public generic DominatorTree::new is instantiated on a harness node type and all four relations (dominator sets, immediate dominators, dominator-tree children, dominance frontiers) are compared with a reference computed from the definition (reachability with one node removed). Every rooted digraph with at most 5 nodes is enumerated (747 939 graphs, self loops and irreducible shapes included); larger graphs (6-40 nodes, five shape families) are generated. Exhaustive in the small scope, sampled beyond.",
+   note="Assumes the property's precondition (entry = node 0 without predecessors, all nodes reachable). Trusts the reference in harness/src/props/c15.rs.",
+   design="DESIGN.md §3 C15"),
+ "C05": dict(
+   level="exploration",
+   technique="differential testing of the comment stripper against a reference lexer (exhaustive over all strings <= 8 symbols of a 7-symbol alphabet, plus generated fragment strings) and metamorphic testing of the whole binary (blank comments / remove comments / inject unterminated opener) on generated programs",
+   text="(1) parser::preprocess (re-exported by the verif feature) must agree with a three-state reference lexer on Ok/Err, byte length, untouched code bytes and blanked comment bytes, for every string up to length 8 (quick) / 10 (thorough) over {/,*,newline,a,quote,space,é} and for generated long strings. (2) Generated programs with comments of every listed shape between tokens are run through the real binary: findings are identical after blanking each comment in place (line:col included), identical modulo positions after removing them, and the same definitions are analysed. (3) An unterminated opener injected at a random token boundary must yield an error diagnostic and a non-zero exit.",
+   note="String literals are not special to the comment lexer (as in Circom's own preprocessor). Blanking replaces each comment character by one blank so displayed columns (counted in characters) are comparable. Crashing runs are skipped here and judged by C01.",
+   design="DESIGN.md §3 C05"),
 }
 
 NOT_YET = {
